@@ -123,7 +123,12 @@ func runTestdrvHistory(c *mon.Ctx, h []int, viaListenTo bool) {
 	runTestdrvHistoryV(c, h, viaListenTo, 0)
 	c17Variant++
 	runTestdrvHistoryV(c, h, viaListenTo, 1+c17Variant%4)
+	// variant 5: every Send carries two complete messages, and every listener ends itself (calls its own stop
+	// function from the callback) on its 1st, 2nd or 3rd message: what the same Send still holds must not reach it
+	runTestdrvHistoryV(c, h, viaListenTo, c17SelfStop)
 }
+
+const c17SelfStop = 5
 
 var c17Variant int
 
@@ -138,6 +143,14 @@ func runTestdrvHistoryV(c *mon.Ctx, h []int, viaListenTo bool, variant int) {
 		level = "midi.ListenTo"
 	}
 	desc := map[string]any{"history": histString(h), "listen_via": level}
+	selfStop := false
+	received := map[int]int{} // listener id -> messages it got
+	if variant == c17SelfStop {
+		desc["variant"] = "every Send carries two messages; listener id calls its own stop function inside the callback of its (1 + id%3)-th message"
+		c.Count("testdrv_histories_with_self_stopping_listeners", 1)
+		variant = 0
+		selfStop = true
+	}
 	if variant > 0 {
 		desc["listener options"] = fmt.Sprintf("variant %d: listener id asks for c17Cfgs[(id+%d)%%%d] of %+v", variant, variant, len(c17Cfgs), c17Cfgs)
 		c.Count("testdrv_histories_with_differing_listener_options", 1)
@@ -150,6 +163,14 @@ func runTestdrvHistoryV(c *mon.Ctx, h []int, viaListenTo bool, variant int) {
 	var got []deliv
 	var stopFn func()
 	sendID := 0
+	onMsg := func(id int, msg []byte) {
+		got = append(got, deliv{id, append([]byte(nil), msg...)})
+		received[id]++
+		if selfStop && received[id] == 1+id%3 {
+			stopFn() // returns here: from now on the listener must not be called again
+			c.Count("testdrv_stops_from_inside_the_callback", 1)
+		}
+	}
 	fail := func(class, msg string, want, gotv any) {
 		c.Violation("testdrv:"+class, fmt.Sprintf("%s [history: %s; %s]", msg, histString(h), level), desc, want, gotv)
 	}
@@ -207,14 +228,10 @@ func runTestdrvHistoryV(c *mon.Ctx, h []int, viaListenTo bool, variant int) {
 					if cfg.buf > 0 {
 						opts = append(opts, midi.SysExBufferSize(cfg.buf))
 					}
-					stopFn, err = midi.ListenTo(in, func(msg midi.Message, ts int32) {
-						got = append(got, deliv{id, append([]byte(nil), msg...)})
-					}, opts...)
+					stopFn, err = midi.ListenTo(in, func(msg midi.Message, ts int32) { onMsg(id, msg) }, opts...)
 					m.inOpen = true
 				} else {
-					stopFn, err = in.Listen(func(msg []byte, ts int32) {
-						got = append(got, deliv{id, append([]byte(nil), msg...)})
-					}, drivers.ListenConfig{SysEx: cfg.sysex, TimeCode: cfg.clock, ActiveSense: cfg.sense, SysExBufferSize: cfg.buf})
+					stopFn, err = in.Listen(func(msg []byte, ts int32) { onMsg(id, msg) }, drivers.ListenConfig{SysEx: cfg.sysex, TimeCode: cfg.clock, ActiveSense: cfg.sense, SysExBufferSize: cfg.buf})
 				}
 			})
 			if panicked {
@@ -243,6 +260,26 @@ func runTestdrvHistoryV(c *mon.Ctx, h []int, viaListenTo bool, variant int) {
 			msg := c17Msg(activeCfg, variant, sendID, step)
 			if len(msg) > 3 {
 				c.Count("testdrv_sysex_sends", 1)
+			}
+			parts := [][]byte{msg}
+			if selfStop {
+				second := []byte{0x91, byte(sendID), byte(step + 1)}
+				parts = append(parts, second)
+				msg = append(append([]byte(nil), msg...), second...)
+			}
+			// what the model delivers: the messages of this call up to the one on which the listener ends itself
+			var expect [][]byte
+			selfStopped := false
+			if m.outOpen && m.active != 0 {
+				n := received[m.active]
+				for _, p := range parts {
+					expect = append(expect, p)
+					n++
+					if selfStop && n == 1+m.active%3 {
+						selfStopped = true
+						break
+					}
+				}
 			}
 			before := len(got)
 			var err error
@@ -282,11 +319,23 @@ func runTestdrvHistoryV(c *mon.Ctx, h []int, viaListenTo bool, variant int) {
 					fail("send-live-error", fmt.Sprintf("%s returned %v", stepDesc, err), "nil", err.Error())
 					return
 				}
-				if len(news) != 1 || news[0].listener != m.active || !bytes.Equal(news[0].msg, msg) {
-					fail("live-delivery", fmt.Sprintf("%s with listener %d active: %d deliveries %v", stepDesc, m.active, len(news), news), fmt.Sprintf("exactly once to listener %d", m.active), fmt.Sprint(news))
+				if selfStopped && len(news) > len(expect) {
+					fail("called-after-own-stop", fmt.Sprintf("%s: listener %d called its stop function inside the callback of message %d of this call (the stop function returned), and was then called again with % X", stepDesc, m.active, len(expect), news[len(expect)].msg), fmt.Sprintf("%d deliveries", len(expect)), fmt.Sprint(news))
 					return
 				}
-				c.Count("testdrv_deliveries", 1)
+				ok := len(news) == len(expect)
+				for k := 0; ok && k < len(news); k++ {
+					ok = news[k].listener == m.active && bytes.Equal(news[k].msg, expect[k])
+				}
+				if !ok {
+					fail("live-delivery", fmt.Sprintf("%s with listener %d active: %d deliveries %v", stepDesc, m.active, len(news), news), fmt.Sprintf("exactly once to listener %d: % X", m.active, expect), fmt.Sprint(news))
+					return
+				}
+				c.Count("testdrv_deliveries", int64(len(news)))
+				if selfStopped {
+					m.active = 0
+					m.stopsSinceLast++
+				}
 			}
 		}
 	}
